@@ -70,3 +70,8 @@ from c04refine_part import MODULES as _REF_MODULES, THEOREMS as _REF_THEOREMS, L
 PROP["modules"] += _REF_MODULES
 PROP["theorems"] += _REF_THEOREMS
 PROP["manifest"]["level_text"] += _REF_TEXT
+# C04 clause (d) in event form + the full updates_only statement over the sequential model (Props/C04UpdatesOnly.lean)
+from c04uo_part import MODULES as _UO_MODULES, THEOREMS as _UO_THEOREMS, LEVEL_TEXT as _UO_TEXT
+PROP["modules"] += _UO_MODULES
+PROP["theorems"] += _UO_THEOREMS
+PROP["manifest"]["level_text"] += _UO_TEXT
